@@ -12,7 +12,7 @@ use serde_json::{json, Value};
 pub static ENGINE: Engine = Engine {
     prop: "C08",
     level: "exploration",
-    rule: "every string <= L chars over a 16-char lexical alphabet (lexer vs reference scanner); every token sequence <= N over the full token alphabet incl. every alias spelling (parser vs reference LL(1) parser: Err vs Ok(tree), trees compared structurally by variable name); every grammar sentence with <= K AST nodes and every sentence of the depth-2 family (every node kind in every child position, 2 300 trees) in three print styles plus EVERY one-token deletion/insertion/replacement of it. distinct = distinct syntax trees accepted by both sides + distinct token lists produced by the lexer sweep",
+    rule: "every string <= L chars over an 18-char lexical alphabet (incl. backslash, quote, digits 0 and 1, a non-ASCII letter) (lexer vs reference scanner); every token sequence <= N over the full token alphabet incl. every alias spelling (parser vs reference LL(1) parser: Err vs Ok(tree), trees compared structurally by variable name); every grammar sentence with <= K AST nodes and every sentence of the depth-2 family (every node kind in every child position, 2 300 trees) in three print styles plus EVERY one-token deletion/insertion/replacement of it. distinct = distinct syntax trees accepted by both sides + distinct token lists produced by the lexer sweep",
     assumptions: &[
         "the reference lexer/parser (harness/src/refl.rs, written from README and the property text) is the grammar",
         "numbers beyond usize::MAX may be rejected (never accepted with another value)",
@@ -73,7 +73,12 @@ fn all_lexemes() -> Vec<String> {
     for t in kinds() {
         match &t {
             Tok::Var(v) => out.push(v.clone()),
-            Tok::Num(n) => out.push(n.clone()),
+            Tok::Num(n) => {
+                out.push(n.clone());
+                out.push("0".to_string());
+                out.push("01".to_string());
+                out.push("007".to_string());
+            }
             Tok::Ref(r) => out.push(format!("{{{r}}}")),
             t => {
                 for s in refl::spellings(t) {
@@ -148,7 +153,7 @@ pub fn check_lex(ctx: &mut Ctx, text: &str) {
 }
 
 fn lexer_sweep(ctx: &mut Ctx) {
-    let alpha: Vec<char> = "a1<=>-\"'{}#$ \u{e9}or".chars().collect();
+    let alpha: Vec<char> = "a10<=>-\"'{}#$ \u{e9}or\\".chars().collect();
     let maxlen = if ctx.thorough() { 6 } else { 5 };
     let mut base = 0u64;
     for len in 0..=maxlen {
